@@ -1,0 +1,9 @@
+package ioext
+
+import "io"
+
+// OnlyReader hides every method of a reader except `Read`, i.e. `io.WriterTo`, so that
+// `io.Copy` always copies through its buffer and hands the data over in the same chunks
+type OnlyReader struct {
+	io.Reader
+}
